@@ -12,6 +12,7 @@ import (
 
 type gor struct {
 	id        int
+	label     int // logical id given by the harness (verifGo); defaults to id
 	wake      chan struct{}
 	exited    chan struct{}
 	done      bool
@@ -99,6 +100,13 @@ func (e *Engine) afterWake() {
 
 // yield is called before every visible (synchronisation) operation.
 func (e *Engine) yield() {
+	if e.params["sched_points_only"] != 0 {
+		return // preemption only at the harness' verifSched points (natively forceable schedules)
+	}
+	e.yieldNow()
+}
+
+func (e *Engine) yieldNow() {
 	if len(e.gors) == 1 {
 		return
 	}
@@ -188,7 +196,7 @@ func (e *Engine) unblock(on interface{}) {
 }
 
 func (e *Engine) spawn(fnv value, args []value) {
-	g := &gor{id: len(e.gors), wake: make(chan struct{}, 1), exited: make(chan struct{})}
+	g := &gor{id: len(e.gors), label: len(e.gors), wake: make(chan struct{}, 1), exited: make(chan struct{})}
 	e.gors = append(e.gors, g)
 	if len(e.gors) > 64 {
 		e.abort("TRUNCATED more than 64 goroutines")
